@@ -9,8 +9,8 @@ func init() {
 		Variant{Prop: "C14", Name: "raw-handler-registered", File: sd, Expect: "C14.a",
 			Old: "\ts.onDelete = append(s.onDelete, func(ctx context.Context, height uint64) (rerr error) {", New: "\ts.onDelete = append(s.onDelete, fn)\n\t_ = append(s.onDelete, func(ctx context.Context, height uint64) (rerr error) {"},
 		Variant{Prop: "C14", Name: "handlers-after-datastore-delete", File: sd, Expect: "C14.b",
-			Old:  "\tfor _, deleteFn := range onDelete {\n\t\tif err := deleteFn(ctx, height); err != nil {\n\t\t\treturn fmt.Errorf(\"on delete handler for %d: %w\", height, err)\n\t\t}\n\t}\n\n\tif err := s.ds.Delete(ctx, hashKey(hash)); err != nil {\n\t\treturn fmt.Errorf(\"delete hash key (%X): %w\", hash, err)\n\t}\n",
-			New:  "\tif err := s.ds.Delete(ctx, hashKey(hash)); err != nil {\n\t\treturn fmt.Errorf(\"delete hash key (%X): %w\", hash, err)\n\t}\n\tfor _, deleteFn := range onDelete {\n\t\tif err := deleteFn(ctx, height); err != nil {\n\t\t\treturn fmt.Errorf(\"on delete handler for %d: %w\", height, err)\n\t\t}\n\t}\n\n"},
+			Old: "\tfor _, deleteFn := range onDelete {\n\t\tif err := deleteFn(ctx, height); err != nil {\n\t\t\treturn fmt.Errorf(\"on delete handler for %d: %w\", height, err)\n\t\t}\n\t}\n\n\tif err := s.ds.Delete(ctx, hashKey(hash)); err != nil {\n\t\treturn fmt.Errorf(\"delete hash key (%X): %w\", hash, err)\n\t}\n",
+			New: "\tif err := s.ds.Delete(ctx, hashKey(hash)); err != nil {\n\t\treturn fmt.Errorf(\"delete hash key (%X): %w\", hash, err)\n\t}\n\tfor _, deleteFn := range onDelete {\n\t\tif err := deleteFn(ctx, height); err != nil {\n\t\t\treturn fmt.Errorf(\"on delete handler for %d: %w\", height, err)\n\t\t}\n\t}\n\n"},
 		Variant{Prop: "C14", Name: "handler-error-ignored", File: sd, Expect: "C14.b",
 			Old: "\t\tif err := deleteFn(ctx, height); err != nil {\n\t\t\treturn fmt.Errorf(\"on delete handler for %d: %w\", height, err)\n\t\t}", New: "\t\tif err := deleteFn(ctx, height); err != nil {\n\t\t\tlog.Errorw(\"on delete handler\", \"height\", height, \"err\", err)\n\t\t\tbreak\n\t\t}"},
 		Variant{Prop: "C14", Name: "only-first-handler", File: sd, Expect: "C14.b",
